@@ -7,7 +7,7 @@
    sources, hence fixed order, every arrival order and every message schedule), no bound on sizes. *)
 From Coq Require Import List NArith Bool Sorted.
 From DuneV Require Import Params_gen C13_Model C13_Spec C13_Proofs C13_Proofs_Recv C13_Proofs_Sync C13_Proofs_Repair C13_Proofs_Completion C13_Proofs_Sound C13_Proofs_Iset C13_Proofs_Restore C13_Proofs_Char C13_Proofs_Order C13_Proofs_RestoreFull
-  C13_Proofs_World C13_Proofs_Loops C13_Proofs_Modifier C13_Proofs_Twice C13_Proofs_Witness C13_Proofs_Examples C13_Proofs_Examples2.
+  C13_Proofs_World C13_Proofs_Loops C13_Proofs_Modifier C13_Proofs_Twice C13_Proofs_Witness C13_Proofs_Examples C13_Proofs_Examples2 C13_Proofs_History.
 Import ListNotations.
 Local Open Scope N_scope.
 
@@ -321,6 +321,49 @@ Theorem C13_restore_then_second_sync_idle : forall W W' W2 D numb numb2 p order 
                 C13Ok (c13_iset (c13_proc_of W2 p)) (c13_ri (c13_proc_of W2 p)) ptrs).
 Proof. exact P_restore_then_idle. Qed.
 Print Assumptions C13_restore_then_second_sync_idle.
+
+(* ===================================================================== dimension audit 2
+   A. PRE-EXISTING STATE OF THE TARGET.  `history W0 W`: W is reached from W0 by ANY number of stages "every rank deletes an
+   arbitrary set of copies with their remote entries (each deleted copy still listed by another rank); collective sync" -- so
+   the sync of a later stage works on index sets and remote lists that earlier deletions and syncs have shaped (re-added,
+   renumbered pairs; lists emptied and re-grown).  For every such history: the world is consistent, carries exactly the remote
+   lists and the (global, attribute) keys of W0 (nothing of an earlier stage survives but the local numbers the numberers
+   handed out), and ANY further stage -- any deletion, numberers, per-rank processing orders -- again returns the restored
+   world on every rank.  (The harness runs two stages, the second with a fresh / the SAME / a copied IndicesSyncer object.) *)
+Theorem C13_history_restore : forall W0 W, consistent W0 -> history W0 W ->
+  consistent W /\
+  (forall p, c13_ri (c13_proc_of W p) = c13_ri (c13_proc_of W0 p) /\
+             map c13_keyof (c13_iset (c13_proc_of W p)) = map c13_keyof (c13_iset (c13_proc_of W0 p))) /\
+  (forall W' W2 D numb sigma p,
+     deleted W W' D -> still_listed W W' D ->
+     (forall r s, In s (sigma r) <-> In s (map fst (c13_ri (c13_proc_of W r)))) -> length W' = length W -> (p < length W)%nat ->
+     is_restored W W2 D numb ->
+     exists ptrs, nth_error (c13_sync c13_fixed numb W' sigma) p =
+                  Some (C13Ok (c13_iset (c13_proc_of W2 (N.of_nat p))) (c13_ri (c13_proc_of W2 (N.of_nat p))) ptrs)).
+Proof. exact P_history_restore. Qed.
+Print Assumptions C13_history_restore.
+
+(* B. ASYMMETRIC CONFIGURATION ACROSS PARTICIPANTS.  All world-level theorems above quantify over a numberer PER RANK
+   (numb : rank -> global -> local number) and a processing order PER RANK (sigma); this clause states the independence
+   explicitly: what rank r ends with is a function of the world, r's own numberer and r's own order only -- the other ranks
+   may run sync(), sync(numberer) or sync(numberer, true) in any mixture. *)
+Theorem C13_rank_configuration_local : forall v numb numb' w sigma sigma' r, (r < length w)%nat ->
+  numb (N.of_nat r) = numb' (N.of_nat r) -> sigma (N.of_nat r) = sigma' (N.of_nat r) ->
+  nth_error (c13_sync v numb w sigma) r = nth_error (c13_sync v numb' w sigma') r.
+Proof. exact P_rank_configuration_local. Qed.
+Print Assumptions C13_rank_configuration_local.
+
+(* non-vacuity: a history of one stage exists (the two-rank example), a second stage on the restored world computes, and a
+   mixed configuration (rank 0: sync(), rank 1: sync(numberer, true)) computes *)
+Example C13_history_hypotheses_satisfiable :
+  consistent c13_x2 /\ history c13_x2 c13_x2r /\
+  c13_sync c13_fixed (fun _ g => 200 + g) c13_x2r' (c13_fixed_order c13_x2r') =
+    [ C13Ok [C13Pair 5 1 0 true] [(1, [((5, 1), 2)])] [(1, C13Ptrs [0%nat])];
+      C13Ok [C13Pair 5 2 205 true] [(0, [((5, 2), 1)])] [(0, C13Ptrs [0%nat])] ] /\
+  c13_sync c13_fixed (fun r => if r =? 0 then c13_default_numberer else (fun g => 100 + g)) c13_x2' (c13_fixed_order c13_x2') =
+    [ C13Ok [C13Pair 5 1 0 true] [(1, [((5, 1), 2)])] [(1, C13Ptrs [0%nat])];
+      C13Ok [C13Pair 5 2 105 true] [(0, [((5, 2), 1)])] [(0, C13Ptrs [0%nat])] ].
+Proof. exact (conj x2_consistent (conj x2_history (conj x2_second_stage x2_mixed))). Qed.
 
 (* The tree as it is: the full statement is false.  Witness 1 (corpus/C13 line 1): sync on an untouched consistent
    two-rank owner/overlap decomposition duplicates remote entries and the pointer repair dereferences end(). *)
